@@ -158,3 +158,81 @@ pub fn snap_cw20(
         allow,
     }))
 }
+
+pub fn list_members(inner: &dyn Contract<Empty>, deps: Deps, env: &Env) -> Option<Vec<(String, u64)>> {
+    let mut out: Vec<(String, u64)> = vec![];
+    let mut cur: Option<String> = None;
+    loop {
+        let page = inner_query::<cw4::MemberListResponse>(
+            inner,
+            deps,
+            env,
+            &json!({"list_members":{"start_after":cur,"limit":30}}),
+        )?;
+        let len = page.members.len();
+        cur = page.members.last().map(|m| m.addr.clone());
+        out.extend(page.members.into_iter().map(|m| (m.addr, m.weight)));
+        if len < 30 || out.len() > 5000 {
+            break;
+        }
+    }
+    Some(out)
+}
+
+pub fn snap_cw4(inner: &dyn Contract<Empty>, deps: Deps, env: &Env, universe: &[String], stake: bool) -> Snap {
+    let mut s = Cw4Snap::default();
+    let admin = inner_query::<cw4::AdminResponse>(inner, deps, env, &json!({"admin":{}}));
+    let hooks = inner_query::<cw4::HooksResponse>(inner, deps, env, &json!({"hooks":{}}));
+    let members = list_members(inner, deps, env);
+    let total = inner_query::<cw4::TotalWeightResponse>(inner, deps, env, &json!({"total_weight":{}}));
+    s.ok = admin.is_some() && hooks.is_some() && members.is_some() && total.is_some();
+    s.admin = admin.and_then(|a| a.admin);
+    s.hooks = hooks.map(|h| h.hooks).unwrap_or_default();
+    s.members = members.unwrap_or_default();
+    s.total = total.map(|t| t.weight).unwrap_or(0);
+    if stake {
+        for a in universe {
+            let st = inner_query::<cw4_stake::msg::StakedResponse>(inner, deps, env, &json!({"staked":{"address":a}}));
+            let cl = inner_query::<cw_controllers::ClaimsResponse>(inner, deps, env, &json!({"claims":{"address":a}}));
+            if st.is_none() || cl.is_none() {
+                s.ok = false;
+            }
+            s.staked.push(st.map(|x| x.stake.u128()).unwrap_or(0));
+            s.claims.push(
+                cl.map(|c| c.claims.into_iter().map(|c| (c.amount.u128(), c.release_at)).collect())
+                    .unwrap_or_default(),
+            );
+        }
+    }
+    Snap::Cw4(Box::new(s))
+}
+
+pub fn snap_cw3(inner: &dyn Contract<Empty>, deps: Deps, env: &Env) -> Snap {
+    let mut s = Cw3Snap::default();
+    let mut cur: Option<u64> = None;
+    s.ok = true;
+    loop {
+        let page = inner_query::<cw3::ProposalListResponse>(
+            inner,
+            deps,
+            env,
+            &json!({"list_proposals":{"start_after":cur,"limit":30}}),
+        );
+        let page = match page {
+            Some(p) => p,
+            None => {
+                s.ok = false;
+                break;
+            }
+        };
+        let len = page.proposals.len();
+        cur = page.proposals.last().map(|p| p.id);
+        for p in page.proposals {
+            s.statuses.push((p.id, format!("{:?}", p.status)));
+        }
+        if len < 30 || s.statuses.len() > 5000 {
+            break;
+        }
+    }
+    Snap::Cw3(Box::new(s))
+}
